@@ -280,6 +280,7 @@ var hopMark = regexp.MustCompile(`HOPMARK`)
 
 // Judge evaluates every monitor over the recorded history.
 func Judge(r *Run) *Judged {
+	r.judging, r.lineageEnd = true, map[*UpCall]uint64{}
 	j := &Judged{Judgements: map[string]int{}}
 	by := r.orespBySID()
 	cl := make([]*cls, len(r.Exchs))
